@@ -204,6 +204,18 @@ def _check_binding(ctx, m):
     ctx.floor("bindings", 1)
 
 
+def _mentions(term, v):
+    if term is v:
+        return True
+    if isinstance(term, Bits) and isinstance(v, Bits):
+        return bool(set(term.sources()) & set(v.sources()))
+    if isinstance(term, Sym):
+        return any(_mentions(a, v) for a in term.args)
+    if isinstance(term, (tuple, list)):
+        return any(_mentions(a, v) for a in term)
+    return False
+
+
 def _check_printing(ctx, repo, folder, reader_values):
     dm = ctx.mod("androguard/decompiler/decompile.py")
     f = dm.cls("DvClass").lookup("get_source")
@@ -230,7 +242,7 @@ def _check_printing(ctx, repo, folder, reader_values):
                 continue
             inst = "print %s field from %s value_arg=%d" % (JAVA[letter], SPEC[t][0], arg)
 
-            def runp(extra, got=got, letter=letter, asg=asg):
+            def runp(extra, got=got, letter=letter, asg=asg, arg=arg):
                 a = {**asg, **extra}
                 captured = []
                 iv = Obj(None, "init_value")
@@ -255,8 +267,9 @@ def _check_printing(ctx, repo, folder, reader_values):
                         return None
                     return NotImplemented
 
-                it = Interp(repo, folder, asg=a, hooks={"method": method})
-                it.max_split = 4
+                helpers = {q for q, fn in dm.functions.items() if "." not in q}
+                it = Interp(repo, folder, asg=a, hooks={"method": method, "inline_funcs": helpers})
+                it.max_split = 8 if arg == 0 else 4
                 env = {fieldvar: fld, "__func__": f}
                 try:
                     it.exec_block(loop.body, env, f)
@@ -291,8 +304,12 @@ def _check_printing(ctx, repo, folder, reader_values):
                 if isinstance(pv, Bits):
                     ok = pv.subst(a) == exp.subst(a)
                 if printed is None:
-                    # paths on which nothing numeric is printed (e.g. the initialiser branch is skipped) carry no obligation,
-                    # unless no path prints at all (checked below)
+                    # nothing numeric recognised: fine only if the stored value does not reach any formatted piece at all
+                    # (e.g. the initialiser branch is skipped); an opaque term that carries it is outside the fragment
+                    for piece in out:
+                        if _mentions(piece, got):
+                            raise AnalysisError("%s: the initialiser value reaches the output through a term the rule cannot evaluate: %s" % (
+                                f.qualname, show(piece)[:200]))
                     continue
                 ctx.count("printed_paths")
                 ctx.check("printed", inst, ok, f, "print %s/%d byte(s): %s" % (SPEC[t][0], arg + 1, show(printed)[:120]),
